@@ -2,7 +2,7 @@
 import itertools
 import re
 
-from lib.gallina import gstr, glist, gopt, gbool, gpair
+from lib.gallina import gstr, glist, gopt, gbool, gpair, gnat
 
 ID = "C19"
 RUN_MODULE = "RunC19"
@@ -18,7 +18,9 @@ EXHAUSTIVE = {"quick": False, "thorough": False}
 ASSUMPTIONS = ["the content of a lookup is C10/C16's business: the model takes what the cassette's "
                "iter_recording_ids answered (spy) as its lookup oracle; the direct predicate checks it against the "
                "C10 specification (exactly that category, incomplete recordings skipped by default)",
-               "in-process comparison only (dedicated processes: C08/C13)",
+               "dedicated comparison processes are modelled by C08/C13; here a few requests run on REAL worker "
+               "processes and are expected to give what the in-process model gives (C08_modes_agree: no worker exits, "
+               "hangs or late answers are scripted); a timing anomaly must show up three times in a row to count",
                "a tuning's functions behave per recording as scripted (ok / different / player, extractor, "
                "comparator raising / no output recorded / no such recording)"]
 TRUSTED = ["tagging tuner + journal in studio_driver.py; pass-through spy on the cassette's iter_recording_ids; "
@@ -104,6 +106,32 @@ def lookup_case(rng, kind, recs, fail=None):
                 script=[rng.randrange(12) for _ in range(rng.randrange(1, 9))])
 
 
+def uneven_case(rng, kind, recs, config):
+    """Several categories with uneven numbers of recordings, consumed interleaved: one category finishes (or is closed
+    by the consumer) while others still have recordings to go."""
+    by = {}
+    for i, r in enumerate(recs):
+        by.setdefault(r["cat"], []).append(i)
+    cats = sorted(by)
+    rng.shuffle(cats)
+    short, rest = cats[0], cats[1:]
+    close = {}
+    if rng.random() < 0.5:      # explicit ids
+        ids = [rng.choice(by[short])]
+        for c in rest:
+            ids += [rng.choice(by[c]) for _ in range(rng.choice([2, 3, 4, 5]))]
+        rng.shuffle(ids)
+        case = dict(cassette=kind, recs=recs, mode="explicit", ids=ids, categories=None)
+    else:
+        case = dict(cassette=kind, recs=recs, mode="lookup", ids=None, categories=cats + rng.choice([[], ["C"]]),
+                    lp=dict(limit=None, skip_incomplete=False))
+    if rng.random() < 0.4:
+        close[rng.choice(cats)] = rng.choice([0, 1, 1, 2])
+    fail = [] if rng.random() < 0.7 else [rng.choice(cats)]
+    script = rng.choice([[0, 1, 2, 3], [0], [1, 0], [rng.randrange(12) for _ in range(rng.randrange(2, 9))]])
+    return dict(case, fail=fail, config=config, script=script, close=close)
+
+
 def generate(rng, tier):
     n_stores, per_store = (3, 45) if tier == "quick" else (20, 120)
     cases = []
@@ -127,6 +155,14 @@ def generate(rng, tier):
                 for sub in subsets:
                     cases.append(dict(base_e, fail=sub))
                     cases.append(dict(base_l, fail=sub))
+            # interleaved consumption with a category finishing / being closed early; in-process and on REAL
+            # dedicated comparison processes (few: each costs worker start-up and 50 ms polls)
+            for _ in range(4 if tier == "quick" else 10):
+                cases.append(uneven_case(rng, kind, recs, rng.choice([None, "keep", "default"])))
+            if s < (2 if tier == "quick" else 6):
+                for _ in range(3 if tier == "quick" else 6):
+                    cases.append(uneven_case(rng, kind, recs, rng.choice(
+                        ["dedicated", "dedicated:1", "dedicated:2", "dedicated:5:keep", "dedicated:3"])))
             # degenerate requests
             cases.append(dict(cassette=kind, recs=recs, mode="lookup", ids=None, categories=None, fail=[], script=[0]))
             cases.append(dict(cassette=kind, recs=recs, mode="lookup", ids=[], categories=[], fail=[], script=[0]))
@@ -237,7 +273,7 @@ BEH = {"ok": "BOk", "diff": "BDiff", "player_raises": "BPlayerRaises", "extracto
 
 def to_gallina(case, obs):
     if "driver_exception" in obs:
-        return 'Case false [] [] [] false None None (Raises (U "driver"))'
+        return 'Case false [] [] [] false None None [] (Raises (U "driver"))'
     store = obs["store"]
     o = obs["inter"]
     behs = []
@@ -254,12 +290,13 @@ def to_gallina(case, obs):
     if case.get("ids") == []:
         ids = []
     cats = case.get("categories")
-    return "Case %s %s %s %s %s %s %s %s" % (
+    return "Case %s %s %s %s %s %s %s %s %s" % (
         gbool(case["cassette"] == "s3"), glist(behs), glist([gstr(c) for c in case.get("fail", [])]),
         glist([gpair(gstr(c), glist([gstr(i) for i in l])) for c, l in lookups]),
-        gbool(case.get("config") == "keep"),
+        gbool("keep" in str(case.get("config")).split(":")),
         gopt(None if ids is None else glist([gstr(i) for i in ids])),
-        gopt(None if cats is None else glist([gstr(c) for c in cats])), impl)
+        gopt(None if cats is None else glist([gstr(c) for c in cats])),
+        glist([gpair(gstr(c), gnat(n)) for c, n in sorted((case.get("close") or {}).items())]), impl)
 
 
 def explain(case, obs):
@@ -279,8 +316,14 @@ def check_play(case, obs, o, which):
     ids = req_ids(case, obs)
     fails = []
 
+    close = case.get("close") or {}
+
     def bad(sig, msg):
         fails.append((sig, "[%s consumption] %s" % (which, msg)))
+
+    def cut(c, lst):
+        """what a category closed by its consumer after n comparisons has produced: the first n"""
+        return lst[:close[c]] if c in close else lst
 
     if "raised" in o:
         if ids is None and case.get("categories") is None:
@@ -331,7 +374,8 @@ def check_play(case, obs, o, which):
                 bad("foreign-recording-in-category", "recording %s reported under category %s" % (lab, c))
             f = parse_msg(cm["msg"])
             if f is None:
-                bad("verdict-unreadable", "category %s id %s message %r" % (c, lab, cm["msg"]))
+                bad("recording-not-compared-by-its-tuning", "category %s: the comparison of %s does not come from the "
+                    "category's playback function / extractor / comparator: %s - %r" % (c, lab, cm["status"], cm["msg"]))
                 continue
             for key, role in (("P", "P"), ("E", "E"), ("C", "C"), ("D", "D")):
                 if key in f and two(f[key]) != "%s:%s" % (role, c):
@@ -357,7 +401,7 @@ def check_play(case, obs, o, which):
         for c in cats:
             if c in fail or "cmps" not in results[c]:
                 continue
-            want_ids = [i for i in ids if spec_category(kind, i) == c]
+            want_ids = cut(c, [i for i in ids if spec_category(kind, i) == c])
             got = labels(results[c])
             if got != want_ids:
                 if sorted(got) == sorted(want_ids):
@@ -369,7 +413,8 @@ def check_play(case, obs, o, which):
                 bad(sig, "category %s played %s, selected (in order): %s" % (c, got, want_ids))
         allgot = [lab for c in cats for lab in labels(results[c])]
         for i in set(ids):
-            if spec_category(kind, i) not in fail and allgot.count(i) != ids.count(i):
+            if spec_category(kind, i) not in fail and spec_category(kind, i) not in close \
+                    and allgot.count(i) != ids.count(i):
                 bad("not-once-per-occurrence", "%s selected %d times, played %d times" % (i, ids.count(i), allgot.count(i)))
     else:
         lp = case.get("lp") or {}
@@ -389,6 +434,8 @@ def check_play(case, obs, o, which):
                     else "lookup-drew-unselected-recording"
                 bad(sig, "category %s played %s; its recordings are %s" % (c, extra, spec))
             n_want = len(spec) if limit is None else min(limit, len(spec))
+            if c in close:
+                n_want = min(n_want, close[c])
             if len(got) != n_want and not extra:
                 bad("lookup-missed-recordings", "category %s played %d of its %d recordings (limit %s): %s" %
                     (c, len(got), len(spec), limit, got))
@@ -442,6 +489,12 @@ def direct(case, obs):
 def features(case):
     f = {"cassette=" + case["cassette"], "mode=" + case["mode"], "failing-tuners=%d" % len(case.get("fail", [])),
          "config=%s" % case.get("config")}
+    if str(case.get("config")).startswith("dedicated"):
+        f.add("real-dedicated-processes")
+    if case.get("close"):
+        f.add("generator-closed-early")
+    if "close" in case:
+        f.add("uneven-categories-interleaved")
     if case.get("ids"):
         ids = case["ids"]
         f.add("ids=%s" % ("1" if len(ids) == 1 else "2-5" if len(ids) <= 5 else "6+"))
@@ -494,7 +547,9 @@ def shrink_candidates(case):
     fl = case.get("fail") or []
     for i in range(len(fl)):
         yield dict(case, fail=fl[:i] + fl[i + 1:])
-    if case.get("config"):
+    if case.get("close"):
+        yield dict(case, close={})
+    if case.get("config") and not str(case["config"]).startswith("dedicated"):
         yield dict(case, config=None)
     if len(case.get("script") or []) > 1:
         yield dict(case, script=[0])
